@@ -33,7 +33,7 @@ fn key(s: &State) -> (u64, u64) {
     (h1.finish(), h2.finish())
 }
 
-const POOL: [&str; 12] = ["bound()", "dump", "ignore", "key = $", "by = f", "Foo", "\"lit\"", "reverse", "transparent", "bound(..)", "Clone", "bound(T: , ..)"];
+const POOL: [&str; 15] = ["bound()", "dump", "ignore", "key = $", "by = f", "Foo", "\"lit\"", "reverse", "transparent", "bound(..)", "Clone", "bound(T: , ..)", "Cálculo", "ÑuAssign", "Sub"];
 const HELPERS: [&str; 8] = ["derive_ex", "debug", "default", "ord", "partial_ord", "eq", "partial_eq", "hash"];
 
 /// delete / duplicate / swap-adjacent / replace / append on a comma separated argument list
@@ -245,7 +245,7 @@ pub fn mutations(s: &State) -> Vec<State> {
     }
     if let Ok(item) = syn::parse_str::<syn::Item>(&s.item) {
         // renaming to raw identifiers / names the expansion itself uses
-        for name in ["r#type", "r#fn", "f", "state", "H", "other", "__x"] {
+        for name in ["r#type", "r#fn", "f", "state", "H", "other", "__x", "ñandú"] {
             let id = match syn::parse_str::<syn::Ident>(name) {
                 Ok(i) => i,
                 Err(_) => continue,
@@ -375,7 +375,7 @@ pub fn mutations(s: &State) -> Vec<State> {
                     let mut x = im.clone();
                     x.trait_ = Some((Some(Default::default()), p.clone(), *f));
                     push("impl:negative".into(), s.entry, s.attr.clone(), x.to_token_stream().to_string());
-                    for t in ["Foo", "::core::ops::AddAssign", "::core::ops::Add<u8, u8>", "::core::ops::Sub<&'static X>", "Neg"] {
+                    for t in ["Foo", "::core::ops::AddAssign", "::core::ops::Add<u8, u8>", "::core::ops::Sub<&'static X>", "Neg", "::core::ops::Add<>", "Add<>", "Cálculo", "ÑuAssign<X>", "::core::ops::Add<'static>", "::core::ops::Add<{ 1 }>"] {
                         let mut x = im.clone();
                         if let Ok(np) = syn::parse_str::<syn::Path>(t) {
                             x.trait_ = Some((None, np, *f));
